@@ -82,7 +82,7 @@ def pipelines(tier, seed):
                         continue
                     if res.problem is None:
                         continue
-                    bad = compcheck.wellformed(res.problem)
+                    bad = compcheck.wellformed(res.problem, pr)
                     if res.plan_back_conversion is None:
                         bad.append("no plan_back_conversion on the pipeline's result")
                     else:
